@@ -15,6 +15,7 @@ import shutil
 import tempfile
 
 from mbt import engine
+from drivers import common as _common
 from drivers.common import run_async
 
 # ---- concretisation of pool values (ids of spec/ConstraintPools.tla) into Python values
@@ -155,7 +156,7 @@ def replay_doc(item):
         obs.append({"route": "validator_api", "status": "RAISED:" + type(e).__name__, "error_fields": [], "warning_fields": []})
     # octave_validate
     try:
-        r = run_async(ValidateTool().execute(content=text, schema=name))
+        r = run_async(_common.tool("validate").execute(content=text, schema=name))
         ve = r.get("validation_errors", [])
         ws = [w for w in r.get("warnings", []) if w not in ve]
         obs.append({"route": "octave_validate", "status": str(r.get("validation_status")),
